@@ -236,12 +236,13 @@ func (env *Env) checkFallbackLayer(layer int, apps []*App) string {
 			if call.LastV != r.Result || call.LastE != r.Error {
 				return fmt.Sprintf("fallback function saw last result (%d,%v), the failure it handles is %s", call.LastV, call.LastE, resStr(r))
 			}
-			if out.Result != s.FbV || out.Error != s.FbE {
-				return fmt.Sprintf("fallback returned %s, its output is (%d,%v)", resStr(out), s.FbV, s.FbE)
+			fv, fe := fbOutput(s, r.Result)
+			if out.Result != fv || out.Error != fe {
+				return fmt.Sprintf("fallback returned %s, its output for the failure %s is (%d,%v)", resStr(out), resStr(r), fv, fe)
 			}
-			wantOK := !isFailure(s.Handle, s.FbV, s.FbE)
+			wantOK := !isFailure(s.Handle, fv, fe)
 			if out.Success != wantOK || out.SuccessAll != wantOK {
-				return fmt.Sprintf("fallback output (%d,%v) classified as success=%v by its conditions, verdict Success=%v SuccessAll=%v", s.FbV, s.FbE, wantOK, out.Success, out.SuccessAll)
+				return fmt.Sprintf("fallback output (%d,%v) classified as success=%v by its conditions, verdict Success=%v SuccessAll=%v", fv, fe, wantOK, out.Success, out.SuccessAll)
 			}
 		} else {
 			if calls != 0 {
